@@ -1,6 +1,9 @@
 package ctl
 
-import "path/filepath"
+import (
+	"path/filepath"
+	"strings"
+)
 
 // ---- round 10: read-only shared table, path as pattern, list flattened twice, raw list handed to a reader, goroutines sharing
 // a channel, characters against bytes
@@ -113,4 +116,23 @@ func EnterMemberGood() {
 	member.Super = ""
 	member.Ifaces = nil
 	curTypeRec = &member
+}
+
+// ---- length of a trimmed copy used as an offset
+
+func AfterNameBad(t, match string) string {
+	name := trimBlanks(match[1 : len(match)-1])
+	_ = name
+	return t[len(strings.TrimSpace(match))+2:]
+}
+
+func AfterNameGood(t, match string) string {
+	return t[len(match):]
+}
+
+func trimBlanks(s string) string {
+	for len(s) > 0 && s[0] == ' ' {
+		s = s[1:]
+	}
+	return s
 }
